@@ -829,3 +829,40 @@ func wrapperCallsOf(p *Prog, fn *FuncNode, target *FuncNode, argIdx int) []*ast.
 	}
 	return out
 }
+
+// loopEarlyExit returns a path on which an iteration of loop ends the whole loop (break,
+// return, goto, panic-free fall-out) instead of handing over to the next iteration;
+// nil when every iteration continues with the loop head.
+func (c *FuncCFG) loopEarlyExit(loop ast.Stmt) []string {
+	var body, done *cfg.Block
+	heads := map[*cfg.Block]bool{}
+	for _, b := range c.G.Blocks {
+		if b.Stmt != loop {
+			continue
+		}
+		switch b.Kind {
+		case cfg.KindRangeBody, cfg.KindForBody:
+			body = b
+		case cfg.KindRangeDone, cfg.KindForDone:
+			done = b
+		case cfg.KindRangeLoop, cfg.KindForLoop, cfg.KindForPost:
+			heads[b] = true
+		}
+	}
+	if body == nil {
+		return []string{"loop body not found"}
+	}
+	q := &Query{C: c, StopEdge: func(b *cfg.Block, s int) bool { return heads[b.Succs[s]] }}
+	vis := q.Run(Point{body, -1})
+	for pt := range vis {
+		if pt.B == done {
+			return append(q.PathTo(pt), "leaves the loop")
+		}
+	}
+	for _, ex := range c.Exits() {
+		if vis[ex.P] {
+			return append(q.PathTo(ex.P), "leaves the function")
+		}
+	}
+	return nil
+}
